@@ -43,7 +43,7 @@ def one(sid, checks):
     return sid, res
 
 def main():
-    ap = argparse.ArgumentParser(); ap.add_argument("-j", type=int, default=4); ap.add_argument("--checks", default=",".join(ALL)); ap.add_argument("ids", nargs="*")
+    ap = argparse.ArgumentParser(); ap.add_argument("-j", type=int, default=4); ap.add_argument("--checks", default=",".join(ALL)); ap.add_argument("--own", action="store_true", help="only the check of the property the change was made for"); ap.add_argument("ids", nargs="*")
     a = ap.parse_args()
     ids = a.ids or sorted(x for x in os.listdir(V + "/seeded") if os.path.exists(f"{V}/seeded/{x}/patch.diff"))
     checks = a.checks.split(",")
@@ -52,7 +52,7 @@ def main():
     SNAP = SCR + "/snapshot"      # the machinery as it is now: later edits under /verif do not leak into running jobs
     sh(f"rsync -a --exclude /.git --exclude /.cache --exclude /replays --exclude /evidence --exclude /seeded {V}/ {SNAP}/")
     with cf.ThreadPoolExecutor(a.j) as ex:
-        for sid, res in ex.map(lambda s: one(s, checks), ids):
+        for sid, res in ex.map(lambda s: one(s, [s.split('-')[0]] if a.own else checks), ids):
             mp = f"{V}/seeded/{sid}/meta.json"
             m = json.load(open(mp)) if os.path.exists(mp) else {}
             if "error" not in res:
